@@ -131,4 +131,26 @@ example :
     ∧ allE (fun e => e.d.uuid ∈ [10] ∧ e.d.uuid ∉ [1, 2] ∧ TimedE e) src ∧ allG (fun x _ _ => x ∈ [1, 2] ∧ x ∉ [10]) src := by
   simp [allG, allGL, allE, allEL, TimedE]
 
+/-- **C16 (the path `merge_group` looks up again designates the group)** — the formal counterpart of the repair of F19: whatever a
+    nested call did to the tree, as long as the tree is a group with pairwise distinct UUIDs below it that still holds the current
+    group `cur` (a group, named by the last element of the frame's path), the refreshed path `refreshPath` designates that group.
+    (Before the repair the frame kept the path computed on entry, which a nested move of a group above `cur` invalidates.) -/
+theorem C16_refreshed_path_designates_group (r : Node) (path : List Nat) (cur : Nat)
+    (hr : r.isGroup = true) (hn : (uuidsL r.children).Nodup) (hlast : path.getLast? = some cur)
+    (hmem : cur ∈ uuidsL r.children) (hkind : allE (fun e => e.d.uuid ≠ cur) r) :
+    ∃ g, findGroup r (refreshPath r path) = some g ∧ g.uuid = cur := by
+  obtain ⟨loc, g, n, h1, _, _, h4, h5⟩ := findLoc_sound r cur ⟨hr, hn⟩ hmem
+  have hp : refreshPath r path = loc ++ [cur] := by
+    unfold refreshPath
+    rw [hlast]
+    simp only [h1]
+  rw [hp]
+  cases n with
+  | entry e =>
+    have := allE_getPath _ _ r _ hkind h5
+    simp only [allE] at this
+    exact absurd h4 this
+  | group x c t cs =>
+    exact ⟨.group x c t cs, by unfold findGroup; rw [h5]; rfl, h4⟩
+
 end Kp.Merge
